@@ -4,6 +4,7 @@ import glob, json, os, re, shutil, sys
 P = sys.argv[1]
 D = f"/tmp/b/{P}"
 out = [f"# Gaps to close for {P}\n"]
+STATUS = json.load(open("/verif/seeded/STATUS.json")) if os.path.exists("/verif/seeded/STATUS.json") else {}
 missed = []
 for d in sorted(glob.glob(f"/verif/seeded/{P}-*/")):
     m = json.load(open(d + "meta.json"))
@@ -11,6 +12,9 @@ for d in sorted(glob.glob(f"/verif/seeded/{P}-*/")):
     if m.get("after_strengthening"):
         continue
     sid = os.path.basename(d[:-1])
+    st = STATUS.get(sid)
+    if st:
+        c = {"caught": st["caught"], "caught_with_failing_input": st["with_failing_input"]}
     if not c.get("caught"):
         missed.append((sid, "MISSED (quick and thorough silent)", m))
     elif not c.get("caught_with_failing_input"):
